@@ -9,8 +9,9 @@ import (
 
 // failWriter accepts k bytes in total, then fails (short write + error).
 type failWriter struct {
-	k   int
-	acc bytes.Buffer
+	k     int
+	acc   bytes.Buffer
+	calls []string // data-less calls (Flush, Sync, Close) the library made
 }
 
 func (w *failWriter) Write(p []byte) (int, error) {
@@ -87,8 +88,9 @@ func runC10(c Case, m *Model) (v Verdict) {
 
 func judgeFault(b []byte, cuts string, eofData bool, k int, m *Model, v *Verdict) {
 	fr := &cutReader{data: b, cuts: parseCuts(cuts), eofWithData: eofData, fault: k}
-	got := readClassFrom(fr)
+	got := readClassFrom(readerVariant(fr, k+len(cuts)))
 	v.Counts["read-faults"]++
+	v.Counts["reader:"+readerVariantNames[(k+len(cuts))%5]]++
 	ed := 0
 	if eofData {
 		ed = 1
@@ -131,14 +133,17 @@ func runC10Write(c Case, m *Model, v *Verdict) {
 		ks = append(ks, k)
 	}
 	ks = append(ks, n-1, n, n+1, n+100)
-	for _, k := range ks {
+	for i, k := range ks {
 		if k < 0 {
 			continue
 		}
 		fw := &failWriter{k: k}
 		var size int64
 		var err error
-		if p := try(func() { size, err = h.build().WriteTo(fw) }); p != "" {
+		// the destination also offers optional interfaces (Flush, Sync, Close, WriteString, ReadFrom ...), in turn
+		dst := writerVariant(fw, i)
+		v.Counts["writer:"+writerVariantNames[i%6]]++
+		if p := try(func() { size, err = h.build().WriteTo(dst) }); p != "" {
 			v.Oracle = append(v.Oracle, fmt.Sprintf("panic while writing into a failing destination (k=%d): %s", k, p))
 			return
 		}
